@@ -81,7 +81,10 @@ CLAIMED = {
          "segment cutter, the implied closing line rule and its error cases): segment -> point -> segment returns every open contour "
          "unchanged, every closed contour in a canonical form proved to be the same contour (same start, same segments once the closing line "
          "is written out), and a quadratic contour without on-curve points unchanged; the one- and two-point degenerate cases that come back "
-         "as an open single point are stated, not hidden. Exact correspondence of both adapters on well-formed and malformed inputs. On the "
+         "as an open single point are stated, not hidden. dropImpliedOnCurvePoints on one simple glyph is modelled as repaired (F20): only "
+         "exact midpoints between off-curve neighbours with equal flags go, end points are renumbered by the count of dropped indices before "
+         "them, and a cubic contour starting on the second handle of a curve keeps an on-curve point. Exact correspondence of the adapters and "
+         "of dropImpliedOnCurvePoints on well-formed and malformed inputs. On the "
          "implementation: every adapter (record/replay, segment<->point, transform, reverse "
          "(both protocols), bounds, TTGlyphPen/TTGlyphPointPen with dropImpliedOnCurves, T2CharStringPen, super-bezier and quadratic "
          "decomposition) is compared through an independent canonical geometry (testing).",
